@@ -159,7 +159,7 @@ theorem segLoad_hand (c : Cls) (enc : Enc) (tr : List Trans) (ls : LoadSt) (hdrO
        if !(isLazy || g.isLoaded) then
          let (ls, g, ok) := segLoadData c tr ls g
          (ls, g, ok)
-       else (ls, g, true)) := by
+       else (ls, g, g.isLoaded || segRangeOk c tr g)) := by
   cases c <;> rfl
 
 /-! ### `section_impl<T>::load_data` -/
@@ -294,6 +294,84 @@ theorem seg32_load_data_readn_eq : seg32_load_data_readn = seg64_load_data_readn
 
 /-- `pstream->read( data.get(), size )` -/
 @[simp] theorem segReadN_val (c : Cls) (size : BitVec 64) : segReadN c size = size := by cases c <;> rfl
+
+/-! ### `segment_impl<T>::is_file_range_valid` and its two callers -/
+
+/-- `if ( !is_file_range_valid() )` -/
+@[simp] theorem segRangeBad_val (c : Cls) (r : Bool) : segRangeBad c r = !r := by cases c <;> rfl
+
+/-- `return is_loaded || is_file_range_valid();` -/
+@[simp] theorem segLazyRet_val (c : Cls) (l r : Bool) : segLazyRet c l r = (l || r) := by cases c <;> rfl
+
+/-- the first test of `is_file_range_valid()` is the first test of `load_data()` -/
+theorem seg64_range_skip_eq : seg64_range_skip = seg64_load_data_skip := rfl
+theorem seg32_range_skip_eq : seg32_range_skip = seg64_load_data_skip := rfl
+
+/-- `is_file_range_valid()` with the tests of either instantiation in one form (they are the tests
+    `section_impl::load_data` makes) -/
+theorem segRangeOk_hand (c : Cls) (tr : List Trans) (g : Seg) :
+    segRangeOk c tr g =
+      (if seg64_load_data_skip g.stype g.filesz then true else
+       if sec64_load_data_off_gt (BitVec.ofInt 64 (trApply tr g.offset.toInt)) g.streamSize then false else
+       if sec64_load_data_size_gt g.filesz g.streamSize (BitVec.ofInt 64 (trApply tr g.offset.toInt)) then false else
+       if sec64_load_data_sizet g.filesz then false else true) := by
+  cases c <;> rfl
+
+/-- `segment_impl::load_data()` with the tests of `is_file_range_valid()` written out in place: the
+    decision sequence the function had before the tests moved into the helper (kept as the form the
+    proofs case-split on) -/
+theorem segLoadData_flat (c : Cls) (tr : List Trans) (ls : LoadSt) (g : Seg) :
+    segLoadData c tr ls g =
+      (let skip := match c with
+         | .c32 => seg32_load_data_skip g.stype g.filesz
+         | .c64 => seg64_load_data_skip g.stype g.filesz
+       if skip then (ls, g, true) else
+       let off : BitVec 64 := BitVec.ofInt 64 (trApply tr g.offset.toInt)
+       let size := g.filesz
+       let offGt := match c with
+         | .c32 => seg32_range_off_gt off g.streamSize
+         | .c64 => seg64_range_off_gt off g.streamSize
+       if offGt then (ls, { g with data := none }, false) else
+       let sizeGt := match c with
+         | .c32 => seg32_range_size_gt size g.streamSize off
+         | .c64 => seg64_range_size_gt size g.streamSize off
+       if sizeGt then (ls, { g with data := none }, false) else
+       let st' := match c with | .c32 => seg32_range_sizet size | .c64 => seg64_range_sizet size
+       if st' then (ls, { g with data := none }, false) else
+       let n := (match c with | .c32 => seg32_load_data_alloc size | .c64 => seg64_load_data_alloc size).toNat
+       let ls := { ls with allocs := ls.allocs ++ [n] }
+       let st1 := (ls.st.clear).seekg (segSeekTo c off).toInt
+       let (st2, got) :=
+         if (segReadN c size).toInt < 0 then (st1.readNeg, ([] : Bytes)) else st1.read (segReadN c size).toNat
+       let isComplete := !st2.fail
+       let st3 := { st2 with eof := st2.eof || ls.st.eof, fail := st2.fail || ls.st.fail }
+       let ls := { ls with st := st3 }
+       if segDataOk c isComplete then (ls, { g with data := some (got ++ [0]), isLoaded := true }, true)
+       else (ls, { g with data := none }, false)) := by
+  have e32 : seg32_range_skip = seg32_load_data_skip := rfl
+  have e64 : seg64_range_skip = seg64_load_data_skip := rfl
+  unfold segLoadData segRangeOk
+  cases c
+  · simp only [segRangeBad_val, e32]
+    by_cases h0 : seg32_load_data_skip g.stype g.filesz = true
+    · simp only [h0, Bool.false_eq_true, if_true, if_false, Bool.not_false, Bool.not_true]
+    by_cases h1 : seg32_range_off_gt (BitVec.ofInt 64 (trApply tr g.offset.toInt)) g.streamSize = true
+    · simp only [h0, h1, Bool.false_eq_true, if_true, if_false, Bool.not_false, Bool.not_true]
+    by_cases h2 : seg32_range_size_gt g.filesz g.streamSize (BitVec.ofInt 64 (trApply tr g.offset.toInt)) = true
+    · simp only [h0, h1, h2, Bool.false_eq_true, if_true, if_false, Bool.not_false, Bool.not_true]
+    by_cases h3 : seg32_range_sizet g.filesz = true
+    · simp only [h0, h1, h2, h3, Bool.false_eq_true, if_true, if_false, Bool.not_false, Bool.not_true]
+    · simp only [h0, h1, h2, h3, Bool.false_eq_true, if_true, if_false, Bool.not_false, Bool.not_true]
+  · simp only [segRangeBad_val, e64]
+    by_cases h0 : seg64_load_data_skip g.stype g.filesz = true
+    · simp only [h0, Bool.false_eq_true, if_true, if_false, Bool.not_false, Bool.not_true]
+    by_cases h1 : seg64_range_off_gt (BitVec.ofInt 64 (trApply tr g.offset.toInt)) g.streamSize = true
+    · simp only [h0, h1, Bool.false_eq_true, if_true, if_false, Bool.not_false, Bool.not_true]
+    by_cases h2 : seg64_range_size_gt g.filesz g.streamSize (BitVec.ofInt 64 (trApply tr g.offset.toInt)) = true
+    · simp only [h0, h1, h2, Bool.false_eq_true, if_true, if_false, Bool.not_false, Bool.not_true]
+    by_cases h3 : seg64_range_sizet g.filesz = true
+    · simp only [h0, h1, h2, h3, Bool.false_eq_true, if_true, if_false, Bool.not_false, Bool.not_true]
+    · simp only [h0, h1, h2, h3, Bool.false_eq_true, if_true, if_false, Bool.not_false, Bool.not_true]
 
 /-! ### `elfio::load_sections` / `elfio::load_segments` -/
 
